@@ -134,13 +134,12 @@ pub fn add_signed_mul_same_len(
         /*@ let ghost ae0 = a_eval@; let ghost be0 = b_eval@;
         proof {
             lemma_val_nonneg_all();
+            lemma_update_keeps_low();
             lemma_val_copy_fill(ae0, a0@); lemma_val_copy_fill(be0, b0@);
         } @*/
         a_eval[n3] = mul::add_mul_word_same_len_in_place(&mut a_eval[..n3], 2, a1);
         /*@ let ghost ae1 = a_eval@;
         proof {
-            // (the slice between the kernel call and the store of its carry has no name: pick it by its value)
-            assert(exists|m: Seq<Word>| #[trigger] val(m) + (ae1[k] as int) * w1 == va0 + 2 * va1 && m =~= ae1.subrange(0, k));
             assert(val(ae1.subrange(0, k)) + (ae1[k] as int) * w1 == va0 + 2 * va1);
             lemma_eval_direct(ae0, ae1, k, ae1[k] as int, 2 * va1);
             lemma_val_bound(ae1.subrange(0, k));
@@ -153,15 +152,12 @@ pub fn add_signed_mul_same_len(
         a_eval[n3] += mul::add_mul_word_in_place(&mut a_eval[..n3], 4, a2);
         /*@ let ghost ae2 = a_eval@;
         proof {
-            assert(exists|m: Seq<Word>| #[trigger] val(m) + (ae2[k] as int - ae1[k] as int) * w1 == val(ae1.subrange(0, k)) + 4 * va2
-                && m =~= ae2.subrange(0, k));
             assert(val(ae2.subrange(0, k)) + (ae2[k] as int - ae1[k] as int) * w1 == val(ae1.subrange(0, k)) + 4 * va2);
             lemma_eval_direct(ae1, ae2, k, ae2[k] as int - ae1[k] as int, 4 * va2);
         } @*/
         b_eval[n3] = mul::add_mul_word_same_len_in_place(&mut b_eval[..n3], 2, b1);
         /*@ let ghost be1 = b_eval@;
         proof {
-            assert(exists|m: Seq<Word>| #[trigger] val(m) + (be1[k] as int) * w1 == vb0 + 2 * vb1 && m =~= be1.subrange(0, k));
             assert(val(be1.subrange(0, k)) + (be1[k] as int) * w1 == vb0 + 2 * vb1);
             lemma_eval_direct(be0, be1, k, be1[k] as int, 2 * vb1);
             lemma_val_bound(be1.subrange(0, k));
@@ -174,8 +170,6 @@ pub fn add_signed_mul_same_len(
         b_eval[n3] += mul::add_mul_word_in_place(&mut b_eval[..n3], 4, b2);
         /*@ let ghost be2 = b_eval@;
         proof {
-            assert(exists|m: Seq<Word>| #[trigger] val(m) + (be2[k] as int - be1[k] as int) * w1 == val(be1.subrange(0, k)) + 4 * vb2
-                && m =~= be2.subrange(0, k));
             assert(val(be2.subrange(0, k)) + (be2[k] as int - be1[k] as int) * w1 == val(be1.subrange(0, k)) + 4 * vb2);
             lemma_eval_direct(be1, be2, k, be2[k] as int - be1[k] as int, 4 * vb2);
             assert(val(ae2) == va0 + 2 * va1 + 4 * va2 && val(be2) == vb0 + 2 * vb1 + 4 * vb2);
@@ -187,6 +181,11 @@ pub fn add_signed_mul_same_len(
             let v2x = val(ae2) * val(be2);
             lemma_eval_prod_bound(val(ae2), val(be2), 7, 7, w1, w2);
             lemma_prod_bound(va0, vb0, w1, w1);
+            assert(w2 == w1 * w1);
+            assert(val(ae2) < 7 * w1);
+            assert(val(be2) < 7 * w1);
+            assert(va0 * vb0 < w2);
+            assert(v2x < 49 * w2);
             lemma_small_multiple_fits(3 * (va0 * vb0) + v2x, 52, 2 * k);
             lemma_sgn(Positive, v2x);
             lemma_val_bound(t1@);
@@ -194,7 +193,6 @@ pub fn add_signed_mul_same_len(
         } @*/
     }
 
-    /*@ proof { assume(false); } @*/ //CUT
     // Evaluate at inf.
     // V(inf) = a4 * b4
     // c_2 -= V(inf)
@@ -204,14 +202,46 @@ pub fn add_signed_mul_same_len(
     {
         let (c_eval, mut memory) = memory.allocate_slice_fill(2 * n3 + 2, 0);
         let c_short = &mut c_eval[..2 * n3_short];
+        /*@ proof { lemma_val_zeros(c_short@); } @*/
         debug_assert_zero!(mul::add_signed_mul_same_len(c_short, Positive, a2, b2, &mut memory));
+        /*@ proof { lemma_kara_sub_product(c_short@, a2@, b2@, __zchk4 as int); } @*/
+        /*@ let ghost cs2 = c@; @*/
         carry_c2 += add::add_signed_in_place(&mut c[2 * n3..4 * n3 + 2], -sign, c_short);
+        /*@ let ghost cs3 = c@;
+        proof {
+            v3 = val(cs3); r3 = carry_c2 as int - r2;
+            assert(v3 + r3 * cc2 == v2 + (-xi) * w2) by {
+                lemma_sgn_neg(sign, va2 * vb2);
+                lemma_window(cs2, cs3, 2 * k, 4 * k + 2, r3, -xi);
+            }
+        } @*/
         carry += add::add_signed_same_len_in_place(&mut c[4 * n3..], sign, c_short);
+        /*@ proof {
+            v4 = val(c@); r4 = carry as int;
+            assert(v4 + r4 * cn == v3 + xi * w4) by {
+                lemma_window(cs3, c@, 4 * k, 2 * ni, r4, xi);
+            }
+        } @*/
         c_eval[2 * n3_short] = mul::mul_word_in_place(c_short, 12);
+        /*@ let ghost t1b = t1@; let ghost ce = c_eval@.subrange(0, 2 * ks + 1);
+        proof {
+            assert(val(ce) == 12 * (va2 * vb2)) by {
+                assert(ce.subrange(0, 2 * ks) =~= c_short@);
+                lemma_top_word(ce, 2 * ks);
+                let vi = va2 * vb2;
+                assert(vi * 12 == 12 * vi);
+            }
+        } @*/
         // 3V(0) + V(2) - 12V(inf) is never negative
         debug_assert_zero!(add::sub_in_place(t1, &c_eval[..2 * n3_short + 1]));
+        /*@ proof {
+            // 3 V(0) + V(2) - 12 V(inf) = 4 c0 + 2 c1 + 4 c2 + 8 c3 + 4 c4 >= 0: no borrow
+            lemma_val_bound(t1@);
+            lemma_no_borrow(val(t1@), val(t1b) - 12 * (va2 * vb2), __zchk5, tw);
+        } @*/
     }
 
+    /*@ proof { assume(false); } @*/ //CUT
     // Sign of V(-1).
     let mut value_neg1_sign;
     let (t2, mut memory) = memory.allocate_slice_fill(2 * n3 + 2, 0);
